@@ -108,6 +108,10 @@ def atomEq : Option T → T → Bool
 end T
 open T
 
+def isMissingLeaf : T → Bool
+  | .leaf .missing => true
+  | _ => false
+
 /-! ### cache handling -/
 
 def resetCache : T → T
@@ -258,6 +262,31 @@ def writeAll (root : T) (recv : Path) : List (Path × T) → List (Update × Pat
       | some (root', none) => writeAll root' recv rest acc
       | some (root', some u) => writeAll root' recv rest (acc ++ [(u, parent)])
 
+/-- `rebind` pairs whose value may be MISSING_VALUE (= delete): a Dict key is deleted; a List item
+is overwritten by a MISSING_VALUE placeholder (an index past the end: nothing happens), reported as
+(item -> MISSING); the placeholder is dropped by the list's change handler — if it runs. -/
+def writeAllM (root : T) (recv : Path) : List (Path × T) → List (Update × Path) → Option (T × List (Update × Path))
+  | [], acc => some (root, acc)
+  | (p, v) :: rest, acc =>
+    match p.reverse with
+    | [] => none
+    | k :: revParent =>
+      let parent := recv ++ revParent.reverse
+      let w : Option (Option (T × Option Update)) :=
+        if isMissingLeaf v then
+          match getAt root parent with
+          | some (.node _ .list items) =>
+            if (lookup k items).isNone then some (some (root, none))       -- appending MISSING_VALUE: no-op
+            else some (writeReset root parent k (some (.leaf .missing)))
+          | some (.node _ .obj _) => none                                   -- a field reset to its default: not modelled
+          | _ => some (writeReset root parent k none)
+        else some (writeReset root parent k (some v))
+      match w with
+      | none => none
+      | some none => none
+      | some (some (root', none)) => writeAllM root' recv rest acc
+      | some (some (root', some u)) => writeAllM root' recv rest (acc ++ [(u, parent)])
+
 /-- Put a transformed receiver back. -/
 def mapAt (g : T → T) : T → Path → T
   | t, [] => g t
@@ -280,11 +309,37 @@ def rawPopitem : T → T
   | .leaf a => .leaf a
   | .node m k items => .node m k items.dropLast
 
+/-- The remaining paths of those that continue with key `k`. -/
+def tailsFor (k : Key) (paths : List Path) : List Path :=
+  paths.filterMap fun p => match p with
+    | k' :: r => if k' = k then some r else none
+    | [] => none
+
+mutual
+  /-- What the change handlers of the nodes on the way to the updated nodes do to the tree: every
+  such node has its memos reset, and every `pg.List` among them drops the MISSING_VALUE placeholders
+  that a `rebind` left in it (`List._on_change`) and re-indexes. `paths` = what remains of the paths
+  to the updated nodes (the node is on such a way iff there is one). -/
+  def purgeSet (paths : List Path) : T → T
+    | .leaf a => .leaf a
+    | .node m kd items =>
+      if paths.isEmpty then .node m kd items
+      else
+        let items' := purgeItems paths items
+        .node { m with cache := none, miss := none } kd
+          (if kd == .list then reindex (items'.filter fun kv => !isMissingLeaf kv.2) else items')
+  def purgeItems (paths : List Path) : List (Key × T) → List (Key × T)
+    | [] => []
+    | (k, t) :: rest => (k, purgeSet (tailsFor k paths) t) :: purgeItems paths rest
+end
+
 /-- Finish a call: when notification is on (and something was updated) deliver the events;
-`_notify_field_updates` also resets the memoised facts of every node it visits. -/
+`_notify_field_updates` also resets the memoised facts of every node it visits, and the handler
+of every List it visits drops the placeholders of deleted items. Without notification neither
+happens (the placeholders stay: known finding C02-F03). -/
 def finish (root' : T) (ups : List (Update × Path)) (notify : Bool) : Out :=
   if notify && !ups.isEmpty then
-    { tree := resetAll root' ups, ok := true, events := notifications root' ups }
+    { tree := purgeSet (ups.map (·.2)) (resetAll root' ups), ok := true, events := notifications root' ups }
   else { tree := root', ok := true, events := [] }
 
 inductive OpKind where
@@ -516,6 +571,18 @@ def step (root : T) (recv : Path) (notifyOn : Bool) : Op → Out
   | .rebind pairs =>
     -- List._sym_rebind applies the pairs in descending path order and reports the updates in
     -- ascending order; the harness sends the pairs of a list receiver in ascending order.
+    if pairs.any (fun pv => isMissingLeaf pv.2) then
+      -- some pairs delete (value MISSING_VALUE)
+      match getAt root recv with
+      | some (.node _ .list _) =>
+        match writeAllM root recv pairs.reverse [] with
+        | none => { tree := root, ok := false, events := [] }
+        | some (r', ups) => finish r' ups.reverse notifyOn
+      | _ =>
+        match writeAllM root recv pairs [] with
+        | none => { tree := root, ok := false, events := [] }
+        | some (r', ups) => finish r' ups notifyOn
+    else
     match getAt root recv with
     | some (.node _ .list _) =>
       match writeAll root recv pairs.reverse [] with
@@ -542,6 +609,37 @@ def step (root : T) (recv : Path) (notifyOn : Bool) : Op → Out
   | .setSlice a b st vs => applyEdit root recv notifyOn (editSetSlice notifyOn a b st vs)
   | .delSlice a b st => applyEdit root recv notifyOn (editDelSlice a b st)
   | .imul k => applyEdit root recv notifyOn (editIMul k)
+
+/-! ### handlers that mutate during notification (re-entrant dispatch)
+
+A change handler (`_on_change` / `_on_bound` of an object, the `onchange_callback` of a Dict / List)
+may itself issue an ordinary mutating call — on its own node, on a descendant, on an ancestor. That
+call is complete before the handler returns: it writes, and its events are delivered to *every*
+subscribing ancestor-or-self of what it wrote, the node whose handler is running included; only then
+the outer dispatch goes on with its next receiver. The nesting is bounded by `fuel` (the handlers of
+the harness stop reacting at that depth). -/
+
+/-- What the handler of the node with identity `id` does on every event it receives: nothing, or one
+call (receiver path from the root, operation). -/
+abbrev React := Nat → Option (Path × Op)
+
+/-- Deliver the events of one call in order; after each delivery the receiver's handler may run a
+nested call (`nested`), whose own log comes right after the event that triggered it. -/
+def dispatchWith (nested : T → Nat → T × List Event) (t : T) : List Event → T × List Event
+  | [] => (t, [])
+  | e :: rest =>
+    let r1 := nested t e.recv
+    let r2 := dispatchWith nested r1.1 rest
+    (r2.1, e :: r1.2 ++ r2.2)
+
+/-- One notified call with re-entrant handlers, at most `fuel` levels of nesting: the tree
+afterwards and the log of all deliveries in the order in which the handlers ran. -/
+def stepR (react : React) : Nat → T → Path → Op → T × List Event
+  | 0, t, recv, op => ((step t recv true op).tree, (step t recv true op).events)
+  | f + 1, t, recv, op =>
+    dispatchWith (fun t' id => match react id with
+        | some (rp, rop) => stepR react f t' rp rop
+        | none => (t', [])) (step t recv true op).tree (step t recv true op).events
 
 /-! ### derived state: `sym_nondefault()` / `sym_missing()` against the value specs
 
@@ -652,11 +750,13 @@ mutual
   /-- `sym_missing()`: the fields that hold MISSING_VALUE, at any depth. -/
   def missS : S → List Path
     | .leaf _ => []
-    | .node _ _ _ items => missItemsS items
-  def missItemsS : List (Key × S) → List Path
+    | .node _ _ sch items => missItemsS sch.isSome items
+  /-- `typed`: the node is schema-bound (only then a field holding MISSING_VALUE is "missing"; a
+  placeholder in a List is not). -/
+  def missItemsS (typed : Bool) : List (Key × S) → List Path
     | [] => []
-    | (k, .leaf a) :: rest => (if a = .missing then [[k]] else []) ++ missItemsS rest
-    | (k, .node kd cls sch its) :: rest => (missS (.node kd cls sch its)).map (k :: ·) ++ missItemsS rest
+    | (k, .leaf a) :: rest => (if typed && a == .missing then [[k]] else []) ++ missItemsS typed rest
+    | (k, .node kd cls sch its) :: rest => (missS (.node kd cls sch its)).map (k :: ·) ++ missItemsS typed rest
 end
 
 def derive (t : T) : LeafMap := deriveS t.sv
@@ -702,16 +802,16 @@ mutual
       match m.miss with
       | some d => (.node m kd items, d)
       | none =>
-        let r := readMissItems items
+        let r := readMissItems m.sch.isSome items
         (.node { m with miss := some r.2 } kd r.1, r.2)
-  def readMissItems : List (Key × T) → List (Key × T) × List Path
+  def readMissItems (typed : Bool) : List (Key × T) → List (Key × T) × List Path
     | [] => ([], [])
     | (k, .leaf a) :: rest =>
-      let r := readMissItems rest
-      ((k, .leaf a) :: r.1, (if a = .missing then [[k]] else []) ++ r.2)
+      let r := readMissItems typed rest
+      ((k, .leaf a) :: r.1, (if typed && a == .missing then [[k]] else []) ++ r.2)
     | (k, .node m kd its) :: rest =>
       let c := readMiss (.node m kd its)
-      let r := readMissItems rest
+      let r := readMissItems typed rest
       ((k, c.1) :: r.1, c.2.map (k :: ·) ++ r.2)
 end
 
